@@ -228,7 +228,11 @@ class CFG(object):
         for n in body.walk():
             if n.k == "LabelStmt":
                 self.labels[n.n] = self._new("join", src=n)
-        start = self._stmt(body, self.exit, None, None)
+        # falling off the end of the body (void functions) is a return too
+        fall = self._new("return", None, src=body.kids[-1] if body.kids else body)
+        fall.note = "implicit"
+        fall.succ.append(("next", self.exit))
+        start = self._stmt(body, fall, None, None)
         self.entry.succ.append(("next", start))
         self._prune()
 
